@@ -3,7 +3,7 @@ import numpy as np
 
 from .. import graphs as G
 from .. import oracles as O
-from .common import call, dtype_variants_agree
+from .common import call, dtype_variants_agree, layout_variants_agree
 
 PROP = 'C15'
 ANCHORS = ['kcore_bu', 'kcore_bd', 'score_wu', 'kcoreness_centrality_bu', 'kcoreness_centrality_bd']
@@ -132,6 +132,11 @@ def run(case, bct, REC):
         nonisol = len(members(A))
         if 0 < len(Sm) < nonisol:
             REC.note_nontrivial(PROP, fname, A, k)
+    if 3 <= n <= 9:
+        for k in (1, 2, 3):
+            layout_variants_agree(REC, PROP, fname, f, A, args=(k,))
+        if not directed:
+            layout_variants_agree(REC, PROP, 'score_wu', bct.score_wu, G.weigh(A, 'dyad', case['ws'], symmetric=True), args=(0.75,))
     if n <= 30:
         for k in (1, 2, 3, 4):
             dtype_variants_agree(REC, PROP, fname, f, A, args=(k,))
